@@ -99,6 +99,27 @@ CLAIMED = {
              'settings-snapshot clause is checked on the implementation (construct, flip default, compile vs fresh).',
         technique='Lean 4 proof (induction over operation histories) + model/implementation correspondence check on histories',
         design_ref='DESIGN.md 4/C11'),
+    'C01': dict(
+        text='Theorems about a Lean model of ExpCoverHelper and PrimalSageCone.conic_form (ordinary, kernel-basis, conditional incl. '
+             'lifted coordinates, forced equality, every cover family with i not in cover(i), any presolve answers): every assignment '
+             'satisfying the compiled rows yields AGE vectors that sum to at most c, have nonnegative off-index entries and define '
+             'signomials nonnegative on all of X, hence the certified signomial is nonnegative on X (ord_age_sound / cond_age_sound + '
+             'row semantics). The model is compared exactly with the real constraint (cover helper, rows, ids) over random instances x '
+             'settings; solved instances are audited against the certificate facts on sampled points of X.',
+        note='exact sigma (solver tolerance outside the theorem; audit turns residuals into a delta); kernel basis needs mat@B=0 '
+             '(audited); ECOS only in the audit.',
+        technique='Lean 4 proof (Mathlib real analysis: exp/log convexity) + model/implementation correspondence check + certificate audit',
+        design_ref='DESIGN.md 4/C01'),
+    'C02': dict(
+        text='Theorems about a Lean model of DualSageCone.conic_form (compact and epigraph form, perspective rows of X, sign '
+             'information, covers): for every x in X (with lift), every t >= 0 and every assignment under which v is the moment vector '
+             't*exp(alpha x), the assignment extends by mu_i = v_i x~ (and epi) to a point of the compiled system - including the t = 0 '
+             'corner of the closed exponential cone. Model compared exactly with the real constraint; moment assignments of sampled '
+             'points of X are plugged into the REAL compiled system.',
+        note='membership of moment assignments in the real system is decided in floating point with a margin (moment vectors satisfy '
+             'the relative-entropy rows with equality; on-boundary points are accepted).',
+        technique='Lean 4 proof (constructed witness assignment, closed exponential cone) + model/implementation correspondence check',
+        design_ref='DESIGN.md 4/C02'),
 }
 
 NOT_YET = 'check not built yet in this session (planned, see DESIGN.md section 6); not claimed until its theorems and correspondence exist'
